@@ -32,6 +32,8 @@ def tasks(tier, seed):
         for c in range(len(CODES)):
             out.append({'kind': 'codes', 'prefix': [a, c], 'n': b['codes_len']})
     out.append({'kind': 'tok_short'})
+    for part in range(4):
+        out.append({'kind': 'code_pairs', 'part': part})
     for a in range(len(TOKENS)):
         out.append({'kind': 'tok_long', 'first': a})
     for a in range(len(TOKENS)):
@@ -142,6 +144,22 @@ def run_task(task, acc):
                 acc.nontrivial_count += 1
                 acc.outcome(rt.reduce_params(params)[0])
             acc.sample({'raw': E + '[1mb' + E + '[' + params + 'ma', 'cls': 'AnsiString'})
+        return
+    if k == 'code_pairs':
+        # every ordered pair of known single codes (all effect groups, set and clear codes): one sequence, two sequences
+        # with text between them, and the second one on top of a colour
+        known = sorted(rt.KNOWN_CODES - {38, 48, 58})
+        for i, a in enumerate(known):
+            if i % 4 != task['part']:
+                continue
+            for b in known:
+                for raw in (E + '[%d;%dmx' % (a, b), E + '[%dmx' % a + E + '[%dmy' % b, E + '[38;5;9;%dmx' % a + E + '[%dmy' % b + E + '[mz'):
+                    acc.state_count += 1
+                    acc.transitions += 1
+                    acc.current = {'raw': raw, 'cls': 'AnsiString'}
+                    amb, n = run_raw(raw, acc, ('AnsiString',))
+                    if n:
+                        acc.nontrivial_count += 1
         return
     T = TOKENS
     if k == 'tok_long':
